@@ -34,9 +34,11 @@ def main():
     shutil.copy(os.path.join(wt, demo), os.path.join(out, demo))
     env = dict(ENV, PYTHONPATH=wt)
     rc_with, out_with = sh(f'/venv/bin/python {demo}', cwd=wt, env=env)
-    sh('git stash', cwd=wt)
+    # (not `git stash`: the stash is shared by all worktrees of a repository)
+    sh('git checkout -- lazy_dataset', cwd=wt)
     rc_without, out_without = sh(f'/venv/bin/python {demo}', cwd=wt, env=env)
-    sh('git stash pop', cwd=wt)
+    rc_ap, o_ap = sh(f'git apply {os.path.join(out, "patch.diff")}', cwd=wt)
+    assert rc_ap == 0, o_ap
     res = {'demo_exit_with_change': rc_with, 'demo_exit_without_change': rc_without,
            'demo_output_with_change': out_with[-1500:]}
     if suite:
